@@ -234,6 +234,14 @@ def check_pair(case, ctx):
                     if any(abs(complex(a.point(q[0])) - zp) <= tol for q in others):
                         ctx.count('swap_check_same_location_other_parameter')
                         ok = True
+                if not ok and not (1e-3 < p[0] < 1 - 1e-3 and 1e-3 < p[1] < 1 - 1e-3):
+                    # reported at an end point of one curve: compared only if the independent polyline finder confirms a
+                    # crossing there; an end that stops within the solver's resolution of the other curve (a near miss or
+                    # a bare touch) is decided by rounding
+                    fnd = X.polyline_crossings(s1, s2, n=400)
+                    if not any(abs(f[0] - p[0]) <= 5e-3 and abs(f[1] - p[1]) <= 5e-3 for f in fnd):
+                        ctx.count('swap_check_endpoint_near_miss_skipped')
+                        ok = True
                 if not ok:
                     # a tangential touch (curves meeting at less than ~6 degrees) is decided by rounding: whether it is
                     # reported at all may differ between the two operand orders; only transversal crossings are compared
